@@ -24,6 +24,8 @@ pub const TARGETS: &[FnTarget] = &[
     },
     FnTarget { file: "compiler.rs", owner: Some("Precedence"), name: "from", lean: "precedence_from", havoc: &[], ignore_cfg_features: &[] },
     FnTarget { file: "compiler.rs", owner: Some("Compiler"), name: "patch_jump", lean: "patch_jump", havoc: &[], ignore_cfg_features: &[] },
+    FnTarget { file: "compiler.rs", owner: Some("Compiler"), name: "resolve_local", lean: "compiler_resolve_local", havoc: &[], ignore_cfg_features: &[] },
+    FnTarget { file: "compiler.rs", owner: Some("Compiler"), name: "add_upvalue", lean: "compiler_add_upvalue", havoc: &[], ignore_cfg_features: &[] },
     FnTarget { file: "compiler.rs", owner: Some("Parser"), name: "emit_loop", lean: "emit_loop", havoc: &[], ignore_cfg_features: &[] },
     FnTarget { file: "compiler.rs", owner: Some("Parser"), name: "patch_offset_at", lean: "patch_offset_at", havoc: &[], ignore_cfg_features: &[] },
     FnTarget { file: "object.rs", owner: Some("ExcHandler"), name: "has_catch_block", lean: "handler_has_catch_block", havoc: &[], ignore_cfg_features: &[] },
@@ -232,6 +234,20 @@ fn translate_one(srcs: &[Src], db: &TypeDb, consts: &BTreeMap<String, i128>, t: 
                 }
                 if p.starts_with("self") && !cx.written.contains(&p) {
                     cx.written.push(p);
+                }
+            }
+        }
+        for tgt in &scan.pushed {
+            if let Some(p) = cx.path_of(tgt) {
+                if p.starts_with("self") && !(cx.vm_mode && vm_place(&p).is_some()) && !cx.written.contains(&p) {
+                    let comps: Vec<String> = p.split('.').skip(1).map(|s| s.to_string()).collect();
+                    if let Ok(t) = cx.place_type("self", &comps) {
+                        if let LT::List(et) = cx.conv(&t) {
+                            if matches!(*et, LT::Rec(..) | LT::BV(_) | LT::I(_) | LT::Bool | LT::Str | LT::Value) {
+                                cx.written.push(p);
+                            }
+                        }
+                    }
                 }
             }
         }
